@@ -28,6 +28,8 @@ def inject(repo, dest, groups):
     by_file = {}
     for g in groups:
         for f, modtext in g["modules"].items():
+            if callable(modtext):
+                modtext = modtext(repo)     # harness text that embeds items extracted from /repo on this run
             by_file.setdefault(f, []).append(modtext)
     report = {}
     for f, mods in by_file.items():
